@@ -203,6 +203,11 @@ def cases(tier, seed):
                         "split": split, "flat": flat, "spelling": spelling,
                         "nconst": nconst}
                 yield dict(base, strat="seq", again=(j % 2 == 0))
+                if j % 2 and kind != "tstr":
+                    # the values of each argument given as a tuple, a
+                    # one-shot generator or a numpy array
+                    yield dict(base, strat=["seq", "shuffle"][j % 4 // 2],
+                               seed=2, valform=["tuple", "gen", "array"][j % 3])
                 if kind == "str" and "i" in tv:
                     # the same sweep right after one over ==-equal values of
                     # other types (non-initial state of the process)
@@ -299,12 +304,21 @@ def build(case):
     # function takes them through **kwargs)
     f = xfn.make_fn(names + sorted(consts), kind=case["kind"], name="f01",
                     varkw=tuple(sorted(consts)) if case.get("varkw") else ())
+    vf = case.get("valform")
+    given = vals
+    if vf:
+        import numpy as np
+
+        given = [tuple(v) if vf == "tuple" else
+                 (x for x in v) if vf == "gen" else
+                 np.array(v) if (vf == "array" and t in "if") else v
+                 for t, v in zip(tv, vals)]
     if case["spelling"] == "dict":
-        combos = dict(zip(names, vals))
+        combos = dict(zip(names, given))
     elif case["spelling"] == "tuple":
-        combos = tuple(zip(names, vals))
+        combos = tuple(zip(names, given))
     else:
-        combos = (names[0], vals[0])
+        combos = (names[0], given[0])
     return f, names, vals, consts, combos
 
 
